@@ -91,6 +91,10 @@ func checkC03(e *Env) {
 	e.requireStore("RESULT", ix, "alloc:bundle.indexEntry.Length", "conv(param:length)", "the length parameter")
 	e.requireStore("RESULT", ix, "alloc:bundle.indexEntry.Request", "param:e.Request", "the request of the same exchange")
 	e.requireStore("RESULT", ix, "param:is.es", "append(param:is.es,alloc:[1]*bundle.indexEntry)", "the entry list extended by this entry")
+	// the index builder sees the Variants / Variant-Key values exactly as the stored header has them:
+	// all field lines, joined by the same normalizeHeaderValues that EncodeHeader applies
+	e.requireStore("RESULT", ix, "alloc:bundle.indexEntry.Variants", "call:bundle.normalizeHeaderValues(param:e.Response.Header[call:http.CanonicalHeaderKey(const:\"variants\")])", "all Variants field lines, comma-joined as in the stored header")
+	e.requireStore("RESULT", ix, "alloc:bundle.indexEntry.VariantKey", "call:bundle.normalizeHeaderValues(param:e.Response.Header[call:http.CanonicalHeaderKey(const:\"variant-key\")])", "all Variant-Key field lines, comma-joined as in the stored header")
 
 	// (d) variants
 	ek := e.fn("bundle.entriesInPossibleKeyOrder")
